@@ -247,7 +247,8 @@ pub struct Acc {
     pub cx: [f64; 3],
     pub l1: [f64; 3],
     /// sibling leaves: per signature, sum over bottom nodes of w * (v_left^2 - v_right^2) / sigma^2 with
-    /// w = d_left/d_right - d_right/d_left, real minus reference (count, sum, sum of squares)
+    /// w = d_left/d_right - d_right/d_left (each leaf serves two coordinates), real minus reference
+    /// (count, sum, sum of squares)
     pub sib: [f64; 3],
 }
 
@@ -484,11 +485,17 @@ fn run_chunk<V: Variant, W: Variant>(seed: u64, run: u64, key_index: usize, chun
                                 // sibling leaves of the bottom nodes (leaf order: left, right, left, right, ...)
                                 let sg2 = V::SIGMA * V::SIGMA;
                                 let mut sdiff = 0.0;
-                                for k in 0..n {
-                                    let (dl, dr) = (basis.gs_norms[2 * k] * basis.gs_norms[2 * k], basis.gs_norms[2 * k + 1] * basis.gs_norms[2 * k + 1]);
+                                // In leaf order, coordinates 4k, 4k+1 share one width (the first leaf of the k-th
+                                // bottom node of the specification's tree: d00 of a 2x2 block, used for both halves)
+                                // and 4k+2, 4k+3 the other (d11).
+                                for k in 0..n / 2 {
+                                    let (dl, dr) = (basis.gs_norms[4 * k] * basis.gs_norms[4 * k], basis.gs_norms[4 * k + 2] * basis.gs_norms[4 * k + 2]);
                                     let w = dl / dr - dr / dl;
-                                    let (a, b) = (2 * n + 2 * k, 2 * n + 2 * k + 1);
-                                    sdiff += w * ((p[a] * p[a] - p[b] * p[b]) - (rp[a] * rp[a] - rp[b] * rp[b])) / sg2;
+                                    let i = 2 * n + 4 * k;
+                                    let sq = |v: &Vec<f64>, j: usize| v[j] * v[j];
+                                    let real = sq(&p, i) + sq(&p, i + 1) - sq(&p, i + 2) - sq(&p, i + 3);
+                                    let refr = sq(&rp, i) + sq(&rp, i + 1) - sq(&rp, i + 2) - sq(&rp, i + 3);
+                                    sdiff += w * (real - refr) / sg2;
                                 }
                                 acc.sib[0] += 1.0;
                                 acc.sib[1] += sdiff;
